@@ -9,6 +9,8 @@ import TantivyModel.Proofs.Columnar.StackMissing
 import TantivyModel.Proofs.Columnar.Writer
 import TantivyModel.Proofs.Columnar.OptRankSelect
 import TantivyModel.Proofs.Columnar.DictColumn
+import TantivyModel.Proofs.Columnar.DictStack
+import TantivyModel.Proofs.Columnar.DictKept
 import TantivyModel.Proofs.Columnar.ColumnFile
 /-!
 # C08 — Fast fields return exactly the values that were indexed
@@ -392,6 +394,20 @@ theorem C08_column_file_roundtrip (startsCodec valCodec : Nat) (card : Card) (ro
     ∃ f, openColumnFile bytes = some f ∧ f.read = rows :=
   columnFile_roundtrip startsCodec valCodec card rows hfit hv hn hvals bytes hibl henc
 
+/-- the same for u128 (IP address) column files (`open_column_u128`): column index bytes + the
+compact-space column + index length, for any valid compact space covering the values. -/
+theorem C08_column_file_u128 (startsCodec : Nat) (rs : Ranges) (idx : Index) (vals : List Nat) (bytes : Bytes)
+    (hok : IndexOk idx) (hv : ValidRanges rs) (hmax : ∀ r ∈ rs, r.2 ≤ U128MAX)
+    (hnr : rs.length ≤ 100000000) (hamp : amplitude rs < 2 ^ 64)
+    (hcov : ∀ v ∈ vals, Covered rs v) (hlen : vals.length < 2 ^ 32)
+    (hibl : ∀ ib, indexEnc startsCodec idx = some ib → ib.length < 2 ^ 32)
+    (henc : columnFileEnc128 startsCodec rs idx vals = some bytes) :
+    ∃ f, openColumnFile128 bytes = some f ∧ f.read = read idx vals :=
+  columnFile128_read startsCodec rs idx vals bytes hok hv hmax hnr hamp hcov hlen hibl henc
+
+example : ((columnFileEnc128 0 [(5, 100), (2 ^ 100, 2 ^ 100 + 3)] (encodeAs .optional [[], [2 ^ 100 + 1], [7]]).1
+      [2 ^ 100 + 1, 7]).bind openColumnFile128).map ColFile.read = some [[], [2 ^ 100 + 1], [7]] := by decide
+
 example : ((columnFileEnc 0 2 (encodeAs .multivalued [[5], [], [7, 9]]).1
       (encodeAs .multivalued [[5], [], [7, 9]]).2).bind openColumnFile).map ColFile.read
     = some [[5], [], [7, 9]] := by decide
@@ -577,6 +593,15 @@ theorem C08_dictionary_merge_remap (used : Nat → Nat → Bool) (ds : List (Lis
   ⟨(mergeDicts_spec used ds hds).1, fun s o hs ho hu => remapOrd_spec used ds hds s o hs ho hu,
    fun n n' a b h1 h2 => sorted_idx_lt _ (mergeDicts_spec used ds hds).1 n n' a b h1 h2⟩
 
+/-- the merged dictionary holds exactly the terms some segment holds at a used ordinal: no term is
+emitted that no surviving row can reach (the code's "remove useless terms"), none that is used is
+dropped -/
+theorem C08_dictionary_merge_terms (used : Nat → Nat → Bool) (ds : List (List Nat))
+    (hds : ∀ d ∈ ds, d.Pairwise (· < ·)) (x : Nat) :
+    x ∈ (mergeDicts used ds).merged ↔
+      ∃ s o, s < ds.length ∧ (ds.getD s [])[o]? = some x ∧ used s o = true :=
+  mergeDicts_mem used ds hds x
+
 -- three segments (one without the column): term 3 is shared, so both old ordinals map to new ordinal 2
 example : (mergeDicts (fun _ _ => true) [[1, 3, 5], [2, 3], []]).merged = [1, 2, 3, 5] := by decide
 example : remapOrd (mergeDicts (fun _ _ => true) [[1, 3, 5], [2, 3], []]) 1 1 = some 2 := by decide
@@ -602,6 +627,47 @@ theorem C08_dictionary_column_merge (card : Card) (used : Nat → Nat → Bool) 
         (mergeDictColumnAs card used order ins).2.2
       = mergeSpec order (ins.map DictInput.readTerms) :=
   mergeDictColumn_spec card used order ins hdict hvalid hfit hords hused
+
+/-- the same with the kept terms decided as the code decides them (`compute_term_bitset` over the
+alive rows of every segment that has an alive bitset, `is_term_present`; `usedOf`): it suffices that
+every surviving row of a segment with a bitset is in that bitset — what `ShuffleMergeOrder` provides. -/
+theorem C08_dictionary_column_merge_alive (card : Card) (alive : List (Option (List Nat)))
+    (order : List (Nat × Nat)) (ins : List DictInput)
+    (hdict : ∀ d ∈ ins, d.dict.Pairwise (· < ·))
+    (hvalid : ∀ a ∈ order, validAddr (ins.map (·.ords)) a)
+    (hfit : card.fits (order.map (inputRow (ins.map (·.ords)))))
+    (hords : ∀ a ∈ order, ∀ o ∈ inputRow (ins.map (·.ords)) a, o < ((ins.map (·.dict)).getD a.1 []).length)
+    (halive : ∀ a ∈ order, ∀ rows, alive.getD a.1 none = some rows → a.2 ∈ rows) :
+    readTerms (mergeDictColumnAs card (usedOf alive ins) order ins).1
+        (mergeDictColumnAs card (usedOf alive ins) order ins).2.1
+        (mergeDictColumnAs card (usedOf alive ins) order ins).2.2
+      = mergeSpec order (ins.map DictInput.readTerms) :=
+  mergeDictColumn_alive card alive order ins hdict hvalid hfit hords halive
+
+/-- stacked merge of a Str / Bytes column (`MergeRowOrder::Stack`: every term kept, stacked column
+index, every ordinal of every segment remapped in turn): inputs canonical or missing, ordinals inside
+their dictionaries — the merged column resolves to the concatenation of what each segment resolved. -/
+theorem C08_dictionary_column_stack (ins : List DictInput)
+    (hdict : ∀ d ∈ ins, d.dict.Pairwise (· < ·))
+    (hcanon : ∀ d ∈ ins, CanonOrMissing d.ords)
+    (hords : ∀ d ∈ ins, ∀ r ∈ d.ords.read, ∀ o ∈ r, o < d.dict.length) :
+    readTerms (mergeDictColumnStacked ins).1 (mergeDictColumnStacked ins).2.1 (mergeDictColumnStacked ins).2.2
+      = stackSpec (ins.map DictInput.readTerms) :=
+  mergeDictColumnStacked_spec ins hdict hcanon hords
+
+example : (fun m : List Nat × Index × List Nat => (m.1, read m.2.1 m.2.2))
+      (mergeDictColumnStacked [⟨[1, 3, 5], ⟨2, some (encodeAs .multivalued [[0, 2], [1]])⟩⟩, ⟨[], ⟨1, none⟩⟩,
+        ⟨[2, 3], ⟨1, some (encodeAs .full [[1]])⟩⟩])
+    = ([1, 2, 3, 5], [[0, 3], [2], [], [2]]) := by decide
+
+-- alive rows {0} of segment 0 (bitset), no bitset for segment 1: term 3 of segment 0 is unused there
+-- but kept through segment 1, term 2 of segment 1 is kept because that segment has no bitset
+example :
+    (mergeDictColumnAs .multivalued
+      (usedOf [some [0], none] [⟨[1, 3, 5], ⟨2, some (encodeAs .multivalued [[0, 2], [1]])⟩⟩,
+        ⟨[2, 3], ⟨1, some (encodeAs .full [[1]])⟩⟩]) [(1, 0), (0, 0)]
+      [⟨[1, 3, 5], ⟨2, some (encodeAs .multivalued [[0, 2], [1]])⟩⟩, ⟨[2, 3], ⟨1, some (encodeAs .full [[1]])⟩⟩]).1
+    = [1, 2, 3, 5] := by decide
 
 -- segment 0: dictionary [1,3,5], rows [1,5] and [3]; segment 1: dictionary [2,3], row [3]; row 1 of
 -- segment 0 is deleted and term 2 is used by no row: merged dictionary [1,3,5], rows [3] and [1,5]
